@@ -11,6 +11,13 @@ import (
 
 const BlockSize = 255
 
+func minUint32(a, b uint32) uint32 {
+	if a < b {
+		return a
+	}
+	return b
+}
+
 func CombineRowBytesIntoBlock(blk [][]byte) []byte {
 	m := 4
 	for _, b := range blk {
@@ -64,7 +71,8 @@ func ReadBlockFrom(r io.Reader) (int64, [][]string, error) {
 	}
 	total := int64(m)
 	n := binary.BigEndian.Uint32(b)
-	blk := make([][]string, n)
+	// the count is not trusted to size the slice: it grows with the rows actually read
+	blk := make([][]string, 0, minUint32(n, BlockSize))
 	var i uint32
 	dec := NewStrListDecoder(false)
 	for i = 0; i < n; i++ {
@@ -72,7 +80,7 @@ func ReadBlockFrom(r io.Reader) (int64, [][]string, error) {
 		if err != nil {
 			return 0, nil, err
 		}
-		blk[i] = line
+		blk = append(blk, line)
 		total += int64(m)
 	}
 	return total, blk, nil
